@@ -220,6 +220,23 @@ Truth_C19(X, q) ==
 SpecQueries(X) == [cluIdle |-> CluIdleQ(X), bufEmpty |-> BufEmptyQ(X), schIdle |-> SchIdleQ(X),
                    telIdle |-> TelIdleQ(X), fin |-> FinishedQ(X)]
 
+(* --------------------------- feasibility --------------------------------- *)
+(* each observation fits the telescope, the ingest limit, the cluster and  *)
+(* both buffers on its own (DESIGN.md appendix C)                          *)
+FeasibleCfg(c) ==
+    /\ DOMAIN c.obs # {}
+    /\ \A o \in DOMAIN c.obs :
+         LET ob == c.obs[o]
+         IN /\ ob.dur >= 1 /\ ob.demand <= c.arrays
+            /\ ob.ing <= c.maxIngest /\ ob.ing <= Cardinality(DOMAIN c.mach)
+            /\ ob.rate <= c.hotRate
+            /\ ob.rate * ob.dur < c.hotCap /\ ob.rate * ob.dur <= c.coldCap
+    /\ c.alg = "batch" =>
+         /\ c.minPer >= 1 /\ c.parts >= 1
+         /\ c.minPer <= Cardinality(DOMAIN c.mach) \div c.parts
+         /\ \A o \in DOMAIN c.split : c.split[o][1] <= Cardinality(DOMAIN c.mach)
+                                        /\ c.split[o][1] <= c.split[o][2] /\ c.split[o][1] >= 1
+
 (* ------------------------------- C05 ------------------------------------ *)
 (* serial bound in timesteps (DESIGN.md appendix C); LatencyC is the        *)
 (* constant per-step latency granted per observation and per task           *)
